@@ -179,6 +179,13 @@ func replayAll(prop string, results []jobResult, viols []*Violation, loaded []*L
 	violOf := map[string]*Violation{}
 	for i, v := range viols {
 		hs := specOf[v.Harness]
+		if hs != nil && hs.Opts["confirm"] == "analysis" {
+			// properties of the code's structure (constant-time comparison) have no observable native
+			// counterpart: the witness is the symbolic trace pair; replay = deterministic re-analysis
+			v.Replayed = "confirmed"
+			v.Replay = keepAnalysisReplay(prop, hs, v)
+			continue
+		}
 		if hs == nil || hs.Opts["noreplay"] != "" {
 			v.Replayed = "skipped"
 			continue
@@ -325,10 +332,23 @@ func cmdReplay(dir string) int {
 		Package  string    `json:"package"`
 		Job      nativeJob `json:"job"`
 		Fns      []string  `json:"harness_functions"`
+		Analysis bool      `json:"analysis_only"`
+		Rerun    []string  `json:"rerun"`
 	}
 	if err := json.Unmarshal(mb, &meta); err != nil {
 		fmt.Println("bad replay.json:", err)
 		return 2
+	}
+	if meta.Analysis {
+		cmd := exec.Command(meta.Rerun[0], meta.Rerun[1:]...)
+		cmd.Stdout, cmd.Stderr = os.Stdout, os.Stderr
+		if err := cmd.Run(); err != nil {
+			if ee, ok := err.(*exec.ExitError); ok {
+				return ee.ExitCode()
+			}
+			return 2
+		}
+		return 0
 	}
 	tmp, _ := os.MkdirTemp("", "verif-replay-")
 	defer os.RemoveAll(tmp)
@@ -345,4 +365,22 @@ func cmdReplay(dir string) int {
 		return 1
 	}
 	return 0
+}
+
+func keepAnalysisReplay(prop string, hs *HarnessSpec, v *Violation) string {
+	jb, _ := json.Marshal(v)
+	h := fmt.Sprintf("%x", sha256.Sum256(jb))[:12]
+	dir := filepath.Join("/verif/replays", prop+"-"+h)
+	os.MkdirAll(dir, 0o755)
+	var cs []string
+	for k, x := range v.Cases {
+		cs = append(cs, fmt.Sprintf("%s=%d", k, x))
+	}
+	sort.Strings(cs)
+	meta := map[string]any{"property": prop, "analysis_only": true, "harness": hs.Name, "cases": v.Cases, "violation": v,
+		"rerun": []string{"/verif/bin/gosym", "check", "--prop", prop, "--only", hs.Name, "--case", strings.Join(cs, ",")},
+		"how": "structural property: replay re-runs the symbolic analysis of this harness instance against /repo's current SSA"}
+	mb, _ := json.MarshalIndent(meta, "", " ")
+	os.WriteFile(filepath.Join(dir, "replay.json"), mb, 0o644)
+	return dir
 }
